@@ -1,9 +1,12 @@
 """C13 — schema inheritance: the type checks reach every class (P-tier: check_types, check_overrides, detect_field_overrides, is_subtype as a reduction, the extra-field policy of SchemaMagic.__new__); the external subtype judgement itself bounded."""
-from . import schema_core
+from . import c16, pgschema, schema_core
 
 
 def build(reg):
     specs = schema_core.build_c13(reg)
+    specs += [x for x in pgschema.add_pgschema(reg) if 'C13' in x.props]  # the schema group's plugin check IS check_types
+    reg.set_class_home("PluginGroupLoad", "plugin/interface.py", "PluginGroup")
+    specs += [c16.LoadPlugin()]  # ... and it runs on every plugin before it is initialised
     return {
         "verify": specs,
         "lemmas": [],
